@@ -220,6 +220,15 @@ def run_vh(mode, lines, workdir, extra=(), cwd=None, per_case_timeout=20.0, batc
     results = {}
     pending = list(lines)
     attempt = 0
+    workdir = tempfile.mkdtemp(prefix="vh-", dir=workdir)
+    try:
+        return _run_vh(mode, pending, workdir, extra, cwd, per_case_timeout, batch_timeout, env, results)
+    finally:
+        shutil.rmtree(workdir, ignore_errors=True)
+
+
+def _run_vh(mode, pending, workdir, extra, cwd, per_case_timeout, batch_timeout, env, results):
+    attempt = 0
     while pending:
         attempt += 1
         cf = os.path.join(workdir, "vh-cases-%d.tsv" % attempt)
